@@ -957,10 +957,11 @@ func (db *DB) initDatabaseFile() error {
 	} else if err != nil {
 		return fmt.Errorf("cannot read database header: %w", err)
 	}
+	if hdr.PageSize == 0 {
+		return fmt.Errorf("cannot read database header: %w", errInvalidDatabaseHeader)
+	}
 	db.pageSize = hdr.PageSize
 	db.pageN.Store(hdr.PageN)
-
-	assert(db.pageSize > 0, "page size must be greater than zero")
 
 	db.chksums.mu.Lock()
 	defer db.chksums.mu.Unlock()
@@ -969,7 +970,10 @@ func (db *DB) initDatabaseFile() error {
 	// short compared to the page count in the header so just checksum what we
 	// can. The database may recover in applyLTX() so we'll do validation then.
 	db.chksums.pages = make([]ltx.Checksum, db.PageN())
-	db.chksums.blocks = make([]ltx.Checksum, pageChksumBlock(db.PageN()))
+	db.chksums.blocks = nil
+	if db.PageN() > 0 {
+		db.chksums.blocks = make([]ltx.Checksum, pageChksumBlock(db.PageN()))
+	}
 
 	lastGoodPage, err := ltx.ChecksumPages(db.DatabasePath(), db.pageSize, db.PageN(), 0, db.chksums.pages)
 
